@@ -404,8 +404,10 @@ def t_add_event_keys_distinct():
         raise Unsupported("anchor-lost: registration loop is not a top-level statement of " + QA)
     sim = sym_obj("Simulator", "sim"); h = sym_obj("EventHook", "hook")
     # run the statements that compute the iterated sequence (`register_name = ...`, `times = ...`), then evaluate the loop's iterable
-    pre_stmts = [s_ for s_ in fn.body[:idx] if isinstance(s_, (_ast.Assign, _ast.AnnAssign)) and isinstance((s_.targets[0] if isinstance(s_, _ast.Assign) else s_.target), _ast.Name)
-                 and (s_.targets[0] if isinstance(s_, _ast.Assign) else s_.target).id in ("times", "register_name", "event")]
+    wanted = {"times", "register_name", "event"}
+    def binds(s_):
+        return any(isinstance(n_, _ast.Name) and isinstance(n_.ctx, _ast.Store) and n_.id in wanted for n_ in _ast.walk(s_))
+    pre_stmts = [s_ for s_ in fn.body[:idx] if binds(s_)]       # at any depth: `times = A if c else B` and `if c: times = A else: times = B` alike
     ex, st0, outs, obl = run_block(QA, pre_stmts, {"self": sim, "event_hook": h}, label=QA + "[keys-distinct]")
     n = 0
     for s1, kind, val in outs:
